@@ -45,6 +45,11 @@ theorem split_unique (a a' b b' : Str) (ha : ' ' ∉ a) (ha' : ' ' ∉ a')
       have := ih cs' (fun hm => ha (List.mem_cons_of_mem _ hm)) (fun hm => ha' (List.mem_cons_of_mem _ hm)) h.2
       exact ⟨by rw [h.1, this.1], this.2⟩
 
+/-- Obligation on the extracted facts: no eviction callback hands an evicted entry object on to
+another key (the entry a request holds stays the entry of the key it was looked up for, also after
+that key has left the shard). -/
+theorem facts_entries_not_recycled : Facts.lruOnEvictedSites = [] := by decide
+
 /-- FULL STATEMENT (key level).  For methods and hosts that contain no space (what net/http
 delivers), two requests get the same cache key only if method, Host and the whole
 request-URI (query string included) are all equal. -/
